@@ -41,16 +41,8 @@ def build_alphabet(client):
 
 
 def build_alphabet_push(client):
-    A = build_alphabet(client)
-    A += [('push', 1, 2), ('PP', 1, 2), ('reset', 2), ('RST', 2), ('WU', 2)]
-    for kind in ('resp', 'trailers'):
-        for end in (False, True):
-            A.append(('send_headers', 2, kind, end))
-            A.append(('HEADERS', 2, kind, end))
-    for end in (False, True):
-        A.append(('send_data', 2, end))
-        A.append(('DATA', 2, end))
-    return A
+    return [o for o in alphabet(client, sids=(1, 2), push=True)
+            if o[0] not in ('settings', 'SETTINGS')]
 
 
 def build_alphabet_two(client):
@@ -144,4 +136,54 @@ def entry_shards(tag, client, entries, alpha, judge, upgrade=False, cfg=None, bu
                          params={'history': [list(o) for o in history], 'depth': depth,
                                  'closure_checked': bool(closure_here)},
                          twin=False))
+    return out
+
+
+def slices(tier, seed, client, novalidate=False):
+    """the standard catalogue slices: (tag, selected entries, catalogue-or-None, stream ids
+    of the step alphabet, push?, upgrade?, cfg, build ops)"""
+    out = []
+    thorough = tier == 'thorough'
+    cat = get_catalogue(client, 9 if thorough else 3)
+    sel = select_entries(cat[0], tier, seed, quick_depth=2, quick_sample=10,
+                         thorough_cap=10 ** 6)
+    out.append(dict(tag='one', entries=sel, cat=cat, sids=(1,), push=False, upgrade=False,
+                    cfg=None, build_ops=build_alphabet(client)))
+    pcat = get_catalogue(client, 4 if thorough else 3, push=True)
+    pentries = [e for e in pcat[0] if any(o[0] in ('push', 'PP') for o in e[0])]
+    psel = select_entries(pentries, tier, seed, quick_depth=3, quick_sample=0,
+                          thorough_cap=300)
+    out.append(dict(tag='push', entries=psel, cat=pcat, sids=(1, 2), push=True, upgrade=False,
+                    cfg=None, build_ops=build_alphabet_push(client)))
+    tcat = get_catalogue(client, 3 if thorough else 2, two=True)
+    tsel = select_entries(tcat[0], tier, seed, quick_depth=2, quick_sample=6, thorough_cap=150)
+    out.append(dict(tag='two', entries=tsel, cat=None, sids=(1, 2, 3, 5), push=False,
+                    upgrade=False, cfg=None, build_ops=None))
+    ucat = get_catalogue(client, 4 if thorough else 2, upgrade=True)
+    usel = select_entries(ucat[0], tier, seed, quick_depth=1, quick_sample=8, thorough_cap=150)
+    out.append(dict(tag='upgrade', entries=usel, cat=ucat, sids=(1,), push=False, upgrade=True,
+                    cfg=None, build_ops=build_alphabet(client)))
+    if novalidate:
+        cfg = {'validate_outbound_headers': False, 'validate_inbound_headers': False}
+        ncat = get_catalogue(client, 4 if thorough else 2, cfg=cfg)
+        nsel = select_entries(ncat[0], tier, seed, quick_depth=2, quick_sample=8,
+                              thorough_cap=150)
+        out.append(dict(tag='novalidate', entries=nsel, cat=ncat, sids=(1,), push=False,
+                        upgrade=False, cfg=cfg, build_ops=build_alphabet(client)))
+    return out
+
+
+def standard_shards(tier, seed, judge, alpha_filter=None, novalidate=False, extra_ops=None,
+                    check_refused=False):
+    out = []
+    for client in (True, False):
+        for sl in slices(tier, seed, client, novalidate=novalidate):
+            alpha = alphabet(client, sids=sl['sids'], push=sl['push'])
+            if extra_ops:
+                alpha = alpha + [o for o in extra_ops(client, sl['sids']) if o not in alpha]
+            if alpha_filter:
+                alpha = [o for o in alpha if alpha_filter(o)]
+            out += entry_shards(sl['tag'], client, sl['entries'], alpha, judge,
+                                upgrade=sl['upgrade'], cfg=sl['cfg'], cat=sl['cat'],
+                                build_ops=sl['build_ops'], check_refused=check_refused)
     return out
